@@ -709,6 +709,17 @@ PPL::MIP_Problem::process_pending_constraints() {
     }
   }
 
+  // parse_constraints() found the pending inequalities that are "already
+  // satisfied" by evaluating them at `last_generator', i.e., at the basic
+  // solution of the tableau *before* the re-merging above. If re-merging
+  // made a tableau row unfeasible, the first phase no longer starts from
+  // that point, so that these inequalities do need an artificial variable
+  // (which is always a correct choice).
+  if (!unfeasible_tableau_rows.empty()) {
+    std::fill(is_satisfied_inequality.begin(),
+              is_satisfied_inequality.end(), false);
+  }
+
   const dimension_type old_tableau_num_rows = tableau.num_rows();
   const dimension_type old_tableau_num_cols = tableau.num_columns();
   const dimension_type first_free_tableau_index = old_tableau_num_cols - 1;
